@@ -48,7 +48,7 @@ def dex_model(draw):
         return '%s%d' % (prefix, uniq[0])
     for ci in range(ncls):
         cname = 'Lp/C%d;' % ci
-        nm = draw(st.integers(1, 3))
+        nm = draw(st.integers(0, 3))          # 0 methods and 0 fields: a class without class_data (marker interface)
         nf = draw(st.integers(0, 3))
         methods, fields = [], []
         used = set()
